@@ -337,6 +337,21 @@ def chunk_definitions(p, n):
         # two roundings to 0.1 mm and the float subtraction of a false origin of up to 1e7
         p.check(de <= 1.1e-4 and dn <= 1.1e-4 and ra[0] == rb[0], 'false-origin-or-first-cm', 'definitions', inp,
                 [list(ra[:4])], [list(rb[:4])], call)
+        # the same flattening with another size (a few centimetres more — the same whole metre — or some hundred metres): TM coordinates
+        # are the semi-major axis times a function of the flattening, so they scale exactly
+        if rng.random() < 0.5:
+            a1 = float(ell.semimaj)
+            a2 = a1 + rng.choice([0.45, -0.3, 0.07, rng.uniform(-900, 900)])
+            ell2 = K.Ellipsoid(a2, ell.inversef)
+            oks, rs = p.guarded('definitions:raises', 'definitions_size', inp, lambda: C.geo2grid(lat, lon, za, ell2, Pa), call)
+            if oks:
+                sc = a2 / a1
+                d_e = abs((rs[2] - fe_a) - sc * (ra[2] - fe_a))
+                d_n = abs((rs[3] - (fn_a if lat < 0 else 0)) - sc * (ra[3] - (fn_a if lat < 0 else 0)))
+                p.case('definitions_size', dict(inp, a2=a2))
+                p.check(d_e <= 1.6e-4 and d_n <= 1.6e-4, 'tm-exact:scales-with-semi-major-axis', 'definitions_size', dict(inp, a2=a2),
+                        list(rs[:4]), [ra[0], ra[1], fe_a + sc * (ra[2] - fe_a), (fn_a if lat < 0 else 0) + sc * (ra[3] - (fn_a if lat < 0 else 0))],
+                        f'geo2grid({lat!r}, {lon!r}, {za}, Ellipsoid({a2!r}, {ell.inversef!r}), ...) after the same call with semi-major axis {a1!r}')
         if lon == cm:
             p.check(abs(ra[2] - fe_a) <= 5.1e-5, 'false-origin-or-first-cm', 'definitions', inp, ra[2],
                     f'easting on the central meridian = false easting {fe_a}', call)
